@@ -31,7 +31,8 @@ RULE = ("cases come from random.Random(VERIF_SEED). runs: count tensors of order
         "ones with an empty slice, an all-zero fibre, a single non-zero; stored dense and sparse (sorted / "
         "shuffled); ranks 1..3; guesses uniform in [0.1,1] with exact zeros, all-zero rows, zero and non-unit "
         "weights; the three algorithms; iteration limits 1..3 from one start; inner limits 1..10; stoptol 1e-2 / "
-        "1e-4 / 1e-6; precompinds and inexact on/off; lbfgsMem 1..5; printitn 0. steps: the helpers of cp_apr.py "
+        "1e-4 / 1e-6; precompinds and inexact on/off; lbfgsMem 1..5; every run is made with printitn 0 (reference, replayed by the "
+        "model) and again with printitn 1 (the default), 2 and 3 with stdout / logging captured. steps: the helpers of cp_apr.py "
         "and the ktensor normalisations on random non-negative models with zeros. validation: valid and malformed "
         "requests with small exact values. A case is non-trivial when the implementation returns a model after at "
         "least one outer iteration (runs), the compared arrays are non-empty (steps), or the request is accepted "
@@ -51,8 +52,14 @@ ASSUMPTIONS = [
     "vectors the implementation used",
     "np.argsort of the final weights is a service returning a permutation; ties are compared up to the order of "
     "the tied components",
-    "wall-clock stoptime, printing, fnEvals / fnVals / nZeros / times and init='random' are not modelled; "
+    "wall-clock stoptime, fnEvals / fnVals / nZeros / times and init='random' are not modelled; "
     "precompinds only selects how the same index sets are computed",
+    "the model has no printing branch: what cp_apr returns (model, obj, kktViolations, nInnerIters, nViolations, "
+    "iteration count) must not depend on printitn. This is CHECKED on the implementation for every run: the "
+    "call is repeated with printitn 1, 2, 3 (output captured), must return / raise alike, satisfy the property "
+    "recomputed with numpy (obj == Poisson log-likelihood of the returned model, ...) and agree with the "
+    "printitn=0 run in the decision fields exactly and in every number to 1e-12. The helpers compared by the "
+    "steps family take no printing option",
     "zero extents, 0-way tensors, maxiters = 0 and (pdnr/pqnr) maxinneriters = 0 are rejected by the model and "
     "not generated as valid inputs; a 1-way dense tensor and a sparse tensor without stored entry are rejections "
     "of the implementation (recorded D3/D4) and of the model",
@@ -906,7 +913,8 @@ class Validation(Family):
             fm = [[[rng.choice([0, 1, 1, 2]) for _ in range(R)] for _ in range(s)] for s in shape]
             alg = rng.choice(ALGS)
             c = {"mut": mut, "alg": alg, "shape": shape, "vals": vals, "sparse": sparse, "rank": R,
-                 "weights": w, "factors": fm, "maxiters": 1, "maxinner": rng.randint(1, 3)}
+                 "weights": w, "factors": fm, "maxiters": 1, "maxinner": rng.randint(1, 3),
+                 "printitn": k % 4}
             if mut == "rank0":
                 c["rank"] = 0
             elif mut == "rank-mismatch":
@@ -955,7 +963,7 @@ class Validation(Family):
                 g = ttb.ktensor([np.array(x, dtype=float).reshape(len(x), R) for x in c["factors"]],
                                 np.array(c["weights"], dtype=float))
                 ttb.cp_apr(data, c["rank"], algorithm=c["alg"], init=g, maxiters=c["maxiters"],
-                           maxinneriters=c["maxinner"], printitn=0)
+                           maxinneriters=c["maxinner"], printitn=c.get("printitn", 0))
                 return True
             with quiet():
                 impls.append(call(f))
@@ -968,7 +976,8 @@ class Validation(Family):
         models = drive(reqs)
         out = []
         for c, i, m in zip(cases, impls, models):
-            tags = [c["mut"], c["alg"] if c["alg"] in ALGS else "bad-alg", "sparse" if c["sparse"] else "dense"]
+            tags = [c["mut"], c["alg"] if c["alg"] in ALGS else "bad-alg", "sparse" if c["sparse"] else "dense",
+                    f"printitn{c.get('printitn', 0)}"]
             acc_i = "ok" in i
             acc_m = bool(m["accept"])
             valid_but = c["mut"] in ("one-way-dense", "empty-sparse") and not acc_i and not acc_m
